@@ -88,8 +88,50 @@ pub fn json_str(s: &str) -> String {
 }
 
 /// Pipes all operation lines of all cases through the Lean driver and compares line by line.
+/// Cases are split into chunks that run through separate driver processes in parallel.
 pub fn compare_with_model(driver: &Path, cases: &[Case], workdir: &Path, tag: &str) -> Result<Vec<Disagreement>, String> {
     std::fs::create_dir_all(workdir).map_err(|e| e.to_string())?;
+    let workers = std::thread::available_parallelism().map(|n| n.get()).unwrap_or(4).min(cases.len().max(1));
+    // balance by a cost estimate (soak ops are expensive)
+    let cost = |c: &Case| -> u64 {
+        c.steps.iter().map(|(op, _)| if let Some(p) = op.find(" cycle k=") { 1 + op[p + 9..].trim().parse::<u64>().unwrap_or(0) / 8 } else { 1 }).sum::<u64>() + 1
+    };
+    let mut order: Vec<usize> = (0..cases.len()).collect();
+    order.sort_by_key(|i| std::cmp::Reverse(cost(&cases[*i])));
+    let mut chunks: Vec<(u64, Vec<usize>)> = vec![(0, vec![]); workers];
+    for i in order {
+        let m = chunks.iter_mut().min_by_key(|(c, _)| *c).unwrap();
+        m.0 += cost(&cases[i]);
+        m.1.push(i);
+    }
+    let results: Vec<Result<Vec<Disagreement>, String>> = std::thread::scope(|s| {
+        let hs: Vec<_> = chunks
+            .iter()
+            .enumerate()
+            .map(|(w, (_, idxs))| {
+                let idxs = idxs.clone();
+                s.spawn(move || {
+                    let sel: Vec<&Case> = idxs.iter().map(|i| &cases[*i]).collect();
+                    compare_chunk(driver, &sel, workdir, &format!("{}-{}", tag, w))
+                })
+            })
+            .collect();
+        hs.into_iter().map(|h| h.join().unwrap_or_else(|_| Err("driver thread panicked".into()))).collect()
+    });
+    let mut dis = vec![];
+    for r in results {
+        dis.extend(r?);
+    }
+    // report in case order
+    let pos: std::collections::HashMap<&str, usize> = cases.iter().enumerate().map(|(i, c)| (c.id.as_str(), i)).collect();
+    dis.sort_by_key(|d| pos.get(d.case_id.as_str()).cloned().unwrap_or(0));
+    Ok(dis)
+}
+
+fn compare_chunk(driver: &Path, cases: &[&Case], workdir: &Path, tag: &str) -> Result<Vec<Disagreement>, String> {
+    if cases.is_empty() {
+        return Ok(vec![]);
+    }
     let ops_path = workdir.join(format!("{}.ops", tag));
     {
         let mut f = std::io::BufWriter::new(std::fs::File::create(&ops_path).map_err(|e| e.to_string())?);
